@@ -635,6 +635,13 @@ def main() -> int:
     _T_ARMED = True
     try:
         if mode == "digest":
+            if CFG.get("start_delay_ms"):
+                time.sleep(CFG["start_delay_ms"] / 1000.0)
+            if CFG.get("pre_files"):  # big data files cached first: the data cache is multi-frame from its first write on
+                from spsdk.utils import database as D
+
+                for xf in _rot(list(CFG["pre_files"]), int(CFG.get("rot", 0))):
+                    D.get_whole_db().load_db_cfg_file(xf)
             parts = query_parts(CFG.get("queries", "full"), int(CFG.get("rot", 0)))
             if CFG.get("extra_files"):  # cached by this start, not part of the digest
                 from spsdk.utils import database as D
